@@ -158,6 +158,22 @@ int main(int argc, char** argv) {
   write_file(F + "/bad/trunc_before_footer", ny.substr(0, raw.consumed - raw.footer.size() - 2));
   write_file(F + "/bad/trunc_in_footer", ny.substr(0, ny.size() - 3));
   write_file(F + "/bad/garbage", std::string(200, 'x'));
+  // every truncation point from just before the footer to one byte short of the end
+  std::vector<std::string> footer_cuts;
+  for (size_t cut = raw.consumed - raw.footer.size() - 3; cut < ny.size(); ++cut) {
+    const std::string n = "bad/cut_" + std::to_string(cut);
+    write_file(F + "/" + n, ny.substr(0, cut));
+    footer_cuts.push_back(n);
+  }
+  {
+    const std::string lh = glue::read_file(src + "/Australia/Lord_Howe");
+    ref::TzifRaw r2 = ref::read_tzif(lh);
+    for (size_t cut = r2.consumed - r2.footer.size() - 3; cut < lh.size(); ++cut) {
+      const std::string n = "bad/lh_cut_" + std::to_string(cut);
+      write_file(F + "/" + n, lh.substr(0, cut));
+      footer_cuts.push_back(n);
+    }
+  }
   {  // a "right/" style file with one leap-second record
     tzgen::TzSpec sp; sp.version = 2; sp.types = {{-18000, false, "EST"}}; sp.footer = "EST5";
     std::string b = tzgen::write_tzif(sp);
@@ -171,6 +187,7 @@ int main(int argc, char** argv) {
   std::vector<std::string> names = {"America/New_York", "Nope/Missing", F + "/Europe/London", "/nonexistent/x", "file:America/New_York", "file:" + F + "/Europe/London", "",
                                     "America", "bad/empty", "bad/trunc_header", "bad/trunc_second_header", "bad/trunc_data", "bad/trunc_before_footer", "bad/trunc_in_footer", "bad/garbage", "bad/leap",
                                     ":America/New_York", "UTC", "UTC0", "Fixed/UTC+05:30:00", "Fixed/UTC-00:00:01", "file:", "file:Nope", "file:bad/empty", "Europe/London", "europe/london", "America/New_York/", "./America/New_York", "America//New_York"};
+  for (auto& n : footer_cuts) names.push_back(n);
   std::vector<Env> envs;
   struct V { bool set; std::string v; std::string label; };
   std::vector<V> tzdirs = {{false, "", "unset"}, {true, "", "empty"}, {true, F, "valid"}, {true, "/nonexistent-dir", "missing"}, {true, F + "/", "valid-slash"}};
